@@ -77,6 +77,49 @@ def oracle(case):
     return hit
 
 
+def race_case(seed, i, engine):
+    """a compaction stepped through its storage calls, racing client writes to the keys being compacted
+    (re-creates of deleted keys, updates, deletes) — on tikv the scan reads the snapshot of the timestamp taken
+    before the floor check, so writes in between are invisible to it while its deletes hit the live store"""
+    from .. import sched
+    r = rng_for(seed, "c07race/%d" % i)
+    keys = [PREFIX + b"/a", PREFIX + b"/b", PREFIX + b"/c"]
+    lines = [hist.cfg_line(engine), "gated 1"]
+    n = 0
+    rev = hist.INIT
+    state = {}
+    for k in keys:
+        kind = r.choice(["live", "deleted", "deleted", "updated"])
+        n += 1; rev += 1
+        lines += ["start p%d create %s %s" % (n, hx(k), hx(b"v0")), "step p%d" % n, "step p%d" % n, "step p%d" % n]
+        state[k] = rev
+        if kind == "deleted":
+            n += 1; rev += 1
+            lines += ["start p%d delete %s 0" % (n, hx(k)), "step p%d" % n, "step p%d" % n]
+            state[k] = None
+        elif kind == "updated":
+            n += 1; rev += 1
+            lines += ["start p%d update %s %s %d" % (n, hx(k), hx(b"v1"), state[k]), "step p%d" % n, "step p%d" % n]
+            state[k] = rev
+    lines += ["rev", "start k91 compact 0"]
+    stop_at = r.randint(0, 4)          # how far the compaction gets before the writers run
+    lines += ["step k91"] * stop_at
+    m = 0
+    for k in r.sample(keys, r.randint(1, 3)):
+        m += 1
+        if state[k] is None:
+            req = "create %s %s" % (hx(k), hx(b"again"))
+        else:
+            req = r.choice(["update %s %s %d" % (hx(k), hx(b"v2"), state[k]), "delete %s 0" % hx(k)])
+        lines += ["start c%d %s" % (m, req)] + ["step c%d" % m] * 4
+    lines += ["rev"] + ["step k91"] * 5 + ["rev"]
+    # afterwards every key keeps normal semantics: creating a live key must fail, a deleted one can be created
+    for j, k in enumerate(keys):
+        lines += ["rev", "get %s 0" % hx(k), "start d%d create %s %s" % (60 + j, hx(k), hx(b"dup"))] + ["step d%d" % (60 + j)] * 4
+    lines += ["rev"] + ["get %s 0" % hx(k) for k in keys] + ["dump"]
+    return core.Case("backend", lines, {"engine": engine, "race": True}, model_suite="sched")
+
+
 def masks(tier, r):
     ms = ["", "m=0:f", "m=1:f", "m=2:f", "m=3:f", "m=5:f", "crash=0", "crash=1", "crash=2", "crash=3", "crash=4",
           "m=0:f,2:f", "crash=6"]
@@ -94,10 +137,16 @@ def check(rep, tier, seed):
             eng = ENGINES[(i + len(m)) % 3]
             sk = [PREFIX + b"/a"] if i % 4 == 3 else None
             cases.append(gen_case(seed, i, eng, m, sk))
+    races = [race_case(seed, i, ["tikv", "tikv", "memkv", "badger"][i % 4]) for i in range(24 if tier == "quick" else 600)]
+    cases += races
     core.run_cases(cases)
     for c in cases:
         rep.count_case(c)
-        hit = oracle(c)
+        if c.meta.get("race"):
+            from .. import sched
+            hit = sched.oracle_c01(c) or hist.check_reads(c)
+        else:
+            hit = oracle(c)
         if hit:
             if core.handle_oracle_hit(rep, "C07", hit[1], c, hit[0], hit[1]):
                 return
